@@ -187,8 +187,8 @@ theorem C03_aperture_model_satisfies_spec (cfg : Scales.Aperture.Cfg) (ops : Lis
     the request goes to node 0; then a completion -/
 def c03ApCfg : Scales.Aperture.Cfg := ⟨true, 2, 10, 1 / 2, 2, false, [0, 1, 2]⟩
 def c03ApHist : List Scales.LB.Op :=
-  [.opn, .loaded [0, 1, 2] ⟨[], []⟩, .chan 0 2, .chan 1 2, .get ⟨[], [⟨0, 0⟩]⟩, .chan 1 4,
-   .get ⟨[2], [⟨0, 0⟩]⟩, .put 0 0 ⟨[], [⟨0, 0⟩]⟩]
+  [.opn, .loaded [0, 1, 2] ⟨[], []⟩, .chan 0 2, .chan 1 2, .get ⟨[], [⟨0, 0, 0⟩]⟩, .chan 1 4,
+   .get ⟨[2], [⟨0, 0, 0⟩]⟩, .put 0 0 ⟨[], [⟨0, 0, 0⟩]⟩]
 
 example : Scales.LB.comp3A.wf c03ApCfg c03ApHist = true := by decide +kernel
 example : (Scales.LB.runSt c03ApCfg (Scales.LB.init c03ApCfg) c03ApHist).sub.hs.size = 3 ∧
